@@ -57,10 +57,11 @@ def run():
             if nviol > 40:
                 continue
             hist = _history(r["trace"], ln)
-            steps = json.loads(hist[0]["hist"])
+            h = json.loads(hist[0]["hist"])
+            chip, steps = h["chip"], h["steps"][:len(hist)]
             ev = hist[-1]
-            rep.violation({"property": PID, "steps": steps[:len(hist) - 1], "failing_event": ev, "mismatch": [x[:1200] for x in lines[ln][:3]]},
-                          f"sx1262 history {[s['call'] for s in steps[:len(hist)-1]]}: {lines[ln][0][:300]}")
+            rep.violation({"property": PID, "chip": chip, "steps": steps, "failing_event": ev, "mismatch": [x[:1200] for x in lines[ln][:3]]},
+                          f"{chip} history {[s['call'] for s in steps]}: {lines[ln][0][:300]}")
     for sig, n in sorted(seen_known.items()):
         rep.known_finding(f"[S23] {sigs[sig]['line'][:300]} ({n} fault positions matched)")
     # coverage
@@ -82,10 +83,11 @@ def run():
                 "interrupt script, faulted, cancelled) tuples",
         "calls": calls, "depth": 3 if t else 2, "exhaustive": True,
         "samples": [[{k: e[k] for k in ("call", "pre_mode", "res", "err", "mode", "irq", "fault")} for e in core.read_events(traces[0], 4)]],
-        "explanation": "exhaustive over the stated call/outcome alphabet up to the stated depth on an emulated SX1262 (DC-DC + TCXO board); SX127x and the LoRaWAN adapter are not covered by this check",
+        "explanation": "exhaustive over the stated call/outcome alphabet up to the stated depth on an emulated SX1262 (DC-DC + TCXO board) and an emulated SX1276 (TCXO, PA_BOOST), each also behind the LoRaWAN radio adapter (PhyRxTx calls tx / setup_rx(single|continuous) / rx_single / rx_continuous / low_power, one level deeper because the alphabet is small); LR11xx and SX1272 are not covered",
     }
     return rep.finish("model_checking", cov, [
-        "the abstract SX126x in PhyTrace.tla (which command enters which mode, what a sleeping chip accepts, what survives warm/cold sleep, how TxDone/RxDone/Timeout/CadDone end an operation) follows the SX1261/2 datasheet; it is the trusted part",
+        "the abstract SX126x and SX1276 in PhyTrace.tla (which command / RegOpMode value enters which mode, what a sleeping chip accepts, what survives warm/cold sleep or only a reset, how TxDone/RxDone/Timeout/CadDone end an operation) follow the datasheets; they are the trusted part",
+        "a call that returns an error without a single bus event and without changing the driver's mode is a refusal, not a failed operation (clause 1 territory): chip and driver are where the previous call left them",
         "a fault is a single transient failure of one bus event; a fault on the very command that restores standby is not held against clause 4",
         "an error in continuous reception leaves the decision to the caller (documented API contract)",
     ])
@@ -98,7 +100,7 @@ def replay(path):
     wd = core.workdir(rp)
     src = os.path.join(wd, "steps.json")
     with open(src, "w") as f:
-        json.dump({"steps": r["steps"]}, f)
+        json.dump({"chip": r.get("chip", "sx1262"), "steps": r["steps"]}, f)
     core.run_vh("phyreplay", wd, extra=[f"in={src}"])
     traces = sorted(glob.glob(os.path.join(wd, "phy.*.ndjson")))
     res, sigs = _validate(rp, traces, wd)
